@@ -1,6 +1,8 @@
 (* C15 — the passes over c.nodes: detectCircularReferences, flattenAdjacentSplitterNodes,
    removeUnusedNodes.  Everything here is about an arbitrary node table. *)
-From Verif Require Import Base.Prelude Chain.Model Chain.Lemmas.
+From Verif Require Import Base.Prelude.
+From Verif Require Import Chain.Model.
+From Verif Require Import Chain.Lemmas.
 Local Open Scope string_scope.
 Local Open Scope list_scope.
 
